@@ -83,6 +83,22 @@ func runExpireVotes(ctx *action.Context, tx action.RawTx) (bool, action.Response
 		return false, result
 	}
 
+	//A proposal can only expire while it is being voted on and after its voting deadline
+	if proposal.Status != governance.ProposalStatusVoting {
+		result := action.Response{
+			Events: action.GetEvent(expireVotes.Tags(), "expire_votes_failed"),
+			Log:    governance.ErrStatusNotVoting.Marshal(),
+		}
+		return false, result
+	}
+	if ctx.Header.Height <= proposal.VotingDeadline {
+		result := action.Response{
+			Events: action.GetEvent(expireVotes.Tags(), "expire_votes_failed"),
+			Log:    governance.ErrStatusNotVoting.Wrap(errors.New("voting deadline not passed yet")).Marshal(),
+		}
+		return false, result
+	}
+
 	//Update outcome and status of proposal
 	proposal.Status = governance.ProposalStatusCompleted
 	proposal.Outcome = governance.ProposalOutcomeInsufficientVotes
